@@ -87,6 +87,7 @@ CFG = dict(
                  "harness exercises them (source/colour on, gate values, -race), the theorem does not speak about them",
                  "three facts feed no model flag and are harness-side ties only: handle_readonly (Handle and what it reaches assign to no "
                  "handler field / package-level variable), level_stored_unchanged and enabled_is_ge (the gate is level >= the configured threshold)",
+                 "RECOGNISED SHAPES (gen/loggerfacts identifies things by type and role, not by name): the handler's single *sync.Mutex and io.Writer fields, or ONE pointer field to a struct holding one mutex and one io.Writer; every []byte (slice) field as pre-rendered bytes; the clone method = the parameterless method returning *T that builds a new T (composite literal or `c := *h; c.f = …; return &c`); the line-buffer pool = the package-level sync.Pool with a parameterless getter returning *[]byte (plain or comma-ok type assertion, New as literal or named function) and a releaser taking *[]byte (guard `cap(*buf) <= limit {…}` or early return `cap(*buf) > limit`); Lock / deferred-or-later Unlock / single Write as top-level statements of Handle or of ONE own helper method called once at top level; NewOptions as `return &Options{…}`, `o := &Options{…}; return o`, or `new(Options)` + field assignments (the stored level must be the parameter, unchanged); the level gate as `if !GATE {return}`, `if GATE {…}; return`, or through a local `x := GATE`. Everything else is refused (UNRECOGNISED => broken correspondence). Self-test: gen/loggerfacts/main_test.go (breaking rewrites M1-M7, N1-N3, C03e; harmless H1-H3 and testdata/harmless_*.diff)",
                  "the source facts are SYNTACTIC pattern recognisers (rules in the header of gen/loggerfacts/main.go, self-test "
                  "main_test.go): one known shape per function, top-level Lock / deferred Unlock / single Write in this order; anything else "
                  "is refused (UNRECOGNISED => broken correspondence); no data flow through locals, no reflection",
